@@ -452,6 +452,11 @@ func (rn *runner) traceHelper(op *Op) {
 	w.keep = true
 	res, _ := guard(func() { mux.Trace(w, mk(), op.Flag) })
 	w.finish()
+	if max := 8*len(dump) + 1024; len(w.buf) > max {
+		// far longer than any escaped dump of this request can be: keep a bounded prefix (it cannot equal the expected text any more),
+		// so that a helper that keeps growing its output cannot blow up the trace
+		w.buf = w.buf[:max]
+	}
 	line := obj("ev", js("tracehelper"), "method", js(op.Method), "path", js(op.Path), "hdr", jmap(op.Hdr), "body", js(op.Body), "flag", jbool(op.Flag), "unknownLen", jbool(op.N == -1),
 		"status", jint(w.status), "ct", js(w.sent.Get("Content-Type")), "out", js(string(w.buf)), "dump", js(string(dump)), "dumpok", jbool(derr == nil), "res", js(res))
 	if !rn.nodedup {
